@@ -289,6 +289,10 @@ class State:
     def assume(self, c):
         if z3.is_true(c):
             return
+        i = c.get_id()
+        for p in self.pc[-400:]:
+            if p.get_id() == i:
+                return
         self.pc.append(c)
 
     # ---- heap maps ----
